@@ -98,7 +98,14 @@ Definition sev_of (p : priority) : severity :=
 Definition has_error (rs : list (priority * string)) : bool :=
   existsb (fun r => error_severity (sev_of (fst r))) rs.
 
-(* ---- main_cli: two blocks (parse + compile + link; emit_files), outputs only afterwards *)
+(* ---- main_cli.  Structure (checked by the translator):
+     [unknown --charset / unreadable source: exit 1, no report]
+     block 1: parse + compile + link                          (no file is written)
+     block 2: Compiler.emit_files: one write per make_* file, IN the block; a failed write is
+              reported (error io-error / value-out-of-bounds) and the loop goes on to the next file
+     after the blocks: the -o / --implicit-bin file, then the listing; a failed write prints a
+              plain message and exits 1 WITHOUT a report (struct.error, IOError)
+   What the writes do is input ([cli_env]): the model does not know the file system. *)
 Definition cli_status_of (l : leave) : Z :=
   match l with
   | LNormal => 0%Z
@@ -106,18 +113,72 @@ Definition cli_status_of (l : leave) : Z :=
   | LRaise _ => cli_exit_on_internal_error
   end.
 
+Inductive make_write :=
+| WOk                        (* the file is written *)
+| WReported (id : string)    (* the write (or the container format) fails: reports.error(id, ...), next file *)
+| WCrash.                    (* any other exception: leaves emit_files *)
+Inductive post_write :=
+| PNone                      (* nothing to write (no -o / no --lst / no output file to name the listing after) *)
+| POk
+| PFail                      (* struct.error / IOError: message, sys.exit(1), no report *)
+| PCrash.                    (* any other exception: the internal-error path *)
+Record cli_env := mk_env
+  { e_pre_fail : bool        (* unknown --charset, or a source file that cannot be read *)
+  ; e_make : list make_write (* the make_* files, in source order *)
+  ; e_out : post_write
+  ; e_lst : post_write }.
+
+Fixpoint emit_trace (ws : list make_write) : list event :=
+  match ws with
+  | [] => [Return]
+  | WOk :: r => emit_trace r
+  | WReported id :: r => Report PError id :: emit_trace r
+  | WCrash :: _ => [RaiseOther 2]
+  end.
+(* files are numbered: make_* files 0..n-1 in source order, the -o file n, the listing n+1 *)
+Fixpoint emit_written (i : nat) (ws : list make_write) : list nat :=
+  match ws with
+  | [] => []
+  | WOk :: r => i :: emit_written (S i) r
+  | WReported _ :: r => emit_written (S i) r
+  | WCrash :: _ => []
+  end.
+
 Record cli_result := mk_cli
   { c_status : Z
-  ; c_outputs_written : bool                    (* control reaches the code after the two blocks *)
+  ; c_written : list nat                        (* files created or overwritten by the run *)
+  ; c_error_reported : bool                     (* an error-severity report was issued (the latch of a block) *)
   ; c_delivered : list (priority * string) }.
 
-Definition cli_run (args : list string) (tr1 tr2 : list event) : cli_result :=
+Definition cli_run (args : list string) (tr1 : list event) (env : cli_env) : cli_result :=
+  if e_pre_fail env then mk_cli cli_exit_before_assembly [] false [] else
   let wc := warning_control_of args in
   let r1 := run_with wc tr1 in
   match r_leave r1 with
-  | LNormal => let r2 := run_with wc tr2 in
-               mk_cli (cli_status_of (r_leave r2))
-                      (match r_leave r2 with LNormal => true | _ => false end)
-                      (r_delivered r1 ++ r_delivered r2)
-  | l => mk_cli (cli_status_of l) false (r_delivered r1)
+  | LNormal =>
+      let r2 := run_with wc (emit_trace (e_make env)) in
+      let w2 := emit_written 0 (e_make env) in
+      let n := length (e_make env) in
+      let lat := r_latch r1 || r_latch r2 in
+      let dl := r_delivered r1 ++ r_delivered r2 in
+      match r_leave r2 with
+      | LNormal =>
+          match e_out env with
+          | PFail => mk_cli cli_exit_on_write_error w2 lat dl
+          | PCrash => mk_cli cli_exit_on_internal_error w2 lat dl
+          | o => let w3 := w2 ++ (match o with POk => [n] | _ => [] end) in
+                 match e_lst env with
+                 | PNone => mk_cli 0 w3 lat dl
+                 | POk => mk_cli 0 (w3 ++ [S n]) lat dl
+                 | PFail => mk_cli cli_exit_on_write_error w3 lat dl
+                 | PCrash => mk_cli cli_exit_on_internal_error w3 lat dl
+                 end
+          end
+      | l => mk_cli (cli_status_of l) w2 lat dl
+      end
+  | l => mk_cli (cli_status_of l) [] (r_latch r1) (r_delivered r1)
   end.
+
+(* the environment in which every requested write succeeds *)
+Definition all_ok (nmake : nat) (out lst : bool) : cli_env :=
+  mk_env false (repeat WOk nmake) (if out then POk else PNone) (if lst then POk else PNone).
